@@ -433,8 +433,20 @@ func execC05(x *Ctx, sc *wire.Scenario) *wire.Result {
 			if sc.Family == "chunk-core" {
 				batch = "core:"
 			}
-			return violation(res, "DIVERGENCE", "C05.schedule-independence", batch+"diverge:"+kind+":"+feat,
-				fmt.Sprintf("same bytes, different outcome: slow typist %s; schedule #%d (%s) %s%s", rf, i, feat, gf, extra))
+			// In the full batch the tree is known to depend on the schedule through several defects
+			// whose symptoms (keys lost, reordered, reinterpreted, a different return) overlap: a known
+			// finding is named by the schedule class alone there, the symptom stays in the message.
+			// A crash under a schedule names its frame, and the restricted core batch (which the tree
+			// passes) keeps the symptom in the signature.
+			sig := batch + "diverge:" + kind + ":" + feat
+			if batch == "" {
+				sig = "diverge:" + feat
+			}
+			if out.End == "PANIC" {
+				sig = batch + "diverge:" + panicSig(out.Panic, out.PanicStack) + ":" + feat
+			}
+			return violation(res, "DIVERGENCE", "C05.schedule-independence", sig,
+				fmt.Sprintf("same bytes, different outcome (%s): slow typist %s; schedule #%d (%s) %s%s", kind, rf, i, feat, gf, extra))
 		}
 	}
 	if sc.Index%300 == 0 {
